@@ -254,6 +254,10 @@ def run_check(prop, tier, replay_path=None):
 
     rc = 0
     replay_dir = os.path.join(VERIF, "replays", prop)
+    if os.path.isdir(replay_dir):
+        for fn in os.listdir(replay_dir):
+            if fn.endswith(".json"):
+                os.unlink(os.path.join(replay_dir, fn))
     for h, v, n in new:
         v = minimise(module, v)
         # replay twice from scratch; must reproduce identically
